@@ -70,11 +70,119 @@ SCORES = [0.0, 0.3, 0.5, 0.9, 1.0, -1.0]
 
 
 def is_fvec(v):
-    return isinstance(v, (list, tuple)) and all(isinstance(x, (int, float)) and not isinstance(x, bool) for x in v)
+    return type(v) in (list, tuple) and all(type(x) in (int, float) for x in v)
+
+
+# ---- hook answers of every shape the code accepts ------------------------------------------------------------------
+# In a case (JSON) a hook answer is None (the hook declines), a list of numbers (a Python list of floats, non-finite
+# entries written "nan" / "inf" / "-inf"), or a descriptor {"t": kind, "v": [numbers]}:
+#   scalar  a Python float            npscalar  numpy.float64          tuple   a Python tuple of floats
+#   np0     0-d numpy array           np1       1-d numpy array        np2     numpy array of shape (1, len(v))
+#   npcol   numpy array of shape (len(v), 1)                           listnp  a list of numpy.float64
+#   intlist a list of Python ints
+# For the model the answer is an opaque value that is returned unchanged: every object is described by a list of floats
+# (enc_obj: plain lists of floats as they are, everything else as [MAGIC, kind code, shape..., values...]) and the object
+# the implementation returns is described the same way, so a change of type, shape or of a single bit (NaN = NaN) shows.
+MAGIC = 9.87654321e+200
+KIND_CODE = {"scalar": 1.0, "npscalar": 2.0, "np0": 3.0, "np1": 3.0, "np2": 3.0, "npcol": 3.0, "tuple": 5.0, "listnp": 6.0, "intlist": 7.0}
+NONFINITE = {"nan": float("nan"), "inf": float("inf"), "-inf": float("-inf")}
+
+
+def jv(x):
+    """a float as it is written in a case: non-finite values as strings (the cases are stored as strict JSON)"""
+    x = float(x)
+    return x if x == x and abs(x) != float("inf") else ("nan" if x != x else "inf" if x > 0 else "-inf")
+
+
+def unjv(x):
+    return NONFINITE[x] if isinstance(x, str) else x
+
+
+def build_answer(h):
+    """the Python object the hook returns for the description h"""
+    import numpy as np
+    if h is None:
+        return None
+    if isinstance(h, list):
+        return [unjv(x) for x in h]
+    v = [unjv(x) for x in h["v"]]
+    t = h["t"]
+    if t == "scalar":
+        return float(v[0])
+    if t == "npscalar":
+        return np.float64(v[0])
+    if t == "tuple":
+        return tuple(v)
+    if t == "np0":
+        return np.array(v[0])
+    if t == "np1":
+        return np.array(v, dtype=float)
+    if t == "np2":
+        return np.array([v], dtype=float)
+    if t == "npcol":
+        return np.array([[x] for x in v], dtype=float)
+    if t == "listnp":
+        return [np.float64(x) for x in v]
+    if t == "intlist":
+        return [int(x) for x in v]
+    raise ValueError(t)
+
+
+def answer_iterable(h):
+    """can Individual.calc_signed_costs (map over the costs) digest the answer? (requests through Job.evaluate)"""
+    return h is None or isinstance(h, list) or h["t"] in ("tuple", "np1", "np2", "npcol", "listnp", "intlist")
+
+
+def describe(o):
+    """type- and bit-exact description of an object as a list of floats, or None when it is none of the known kinds"""
+    import numpy as np
+    t = type(o)
+    if t is list and all(type(x) is float for x in o):
+        return [float(x) for x in o]
+    if t is float:
+        return [MAGIC, 1.0, o]
+    if t is np.float64:
+        return [MAGIC, 2.0, float(o)]
+    if t is np.ndarray and o.dtype == np.float64 and o.ndim <= 2:
+        return [MAGIC, 3.0, float(o.ndim)] + [float(d) for d in o.shape] + [float(x) for x in o.ravel()]
+    if t is tuple and all(type(x) is float for x in o):
+        return [MAGIC, 5.0] + [float(x) for x in o]
+    if t is list and o and all(type(x) is np.float64 for x in o):
+        return [MAGIC, 6.0] + [float(x) for x in o]
+    if t is list and o and all(type(x) is int for x in o):
+        return [MAGIC, 7.0] + [float(x) for x in o]
+    if t in (list, tuple) and all(type(x) in (int, float) for x in o):      # mixed ints and floats (vectors of the corpus)
+        return [float(x) for x in o]
+    return None
 
 
 def enc_vec(v):
-    return ll(list(v), fl) if is_fvec(v) else "[nan; nan; nan; nan; nan; nan; nan]"     # malformed: cannot equal any model value
+    d = describe(v)
+    return ll(d, fl) if d is not None else "[nan; nan; nan; nan; nan; nan; nan]"     # unknown kind: cannot equal any model value
+
+
+def ykeys(l):
+    return [vkey(y) for y in l]
+
+
+def jdesc(o):
+    """JSON-able description of a returned object for the evidence"""
+    if o is None:
+        return None
+    if type(o) is list and all(type(x) is float for x in o):
+        return [jv(x) for x in o]
+    return {"type": "%s.%s" % (type(o).__module__, type(o).__name__), "repr": repr(o)}
+
+
+def vkey(o):
+    """the VALUE of an answer, whatever container it comes in: the bit patterns of its numbers in order (NaN = NaN)"""
+    import numpy as np
+    if o is None:
+        return ("none",)
+    try:
+        return tuple("nan" if x != x else float(x).hex() for x in np.ravel(np.asarray(o, dtype=float)))
+    except Exception:
+        return ("unreadable", repr(o))
 
 
 def enc_n3(t):
@@ -89,7 +197,7 @@ SEED_STATES = ["EVALUATED", "EVALUATED", "EVALUATED", "EVALUATED", "EMPTY", "IN_
 SESSION_STEPS = [-1, 1, 2, 2, 3, 3, 4, 5, 5, 7, 10, 0, -2, -3]
 
 
-def gen_requests(rng, n, dim, m, p_accept):
+def gen_requests(rng, n, dim, m, p_accept, p_exotic=0.0):
     pool = [[rng.choice(VGRID) for _ in range(dim)] for _ in range(max(2, n // 3))]
     reqs = []
     for _ in range(n):
@@ -99,8 +207,36 @@ def gen_requests(rng, n, dim, m, p_accept):
         if rng.random() < p_accept:
             r = rng.random()
             hook = [] if r < 0.05 else [0.0] * m if r < 0.12 else list(true) if r < 0.2 else [rng.choice(CGRID) + 1000.0 for _ in range(m)]
+            if rng.random() < p_exotic:
+                hook = gen_answer(rng, m)
         reqs.append(["req", vec, hook, true])
     return reqs
+
+
+SPECIAL = [float("nan"), float("inf"), float("-inf"), 0.0, -0.0, 1e308, -1.7976931348623157e308, 5e-324, 1e-300, 2.0 ** 53, 1000.5]
+
+
+def gen_answer(rng, m):
+    """a hook answer of one of the shapes the wrapper accepts (it only tests `is not None`): containers of every kind, falsy values,
+    NaN / infinities / huge values inside them"""
+    def val():
+        return rng.choice(SPECIAL) if rng.random() < 0.6 else rng.choice(CGRID) + 1000.0
+    t = rng.choice(["list", "list", "list", "scalar", "npscalar", "np0", "np1", "np1", "np2", "npcol", "tuple", "listnp", "intlist"])
+    k = rng.choice([m, m, m, 1, 2, 3, 0]) if t in ("list", "np1", "np2", "npcol", "tuple") else (1 if t in ("scalar", "npscalar", "np0") else rng.choice([1, m, 2]))
+    r = rng.random()
+    if r < 0.25:
+        v = [0.0] * k                                               # falsy: 0.0, [], array([0.]), [0], (0.0,) ...
+    elif r < 0.55:
+        v = [val() for _ in range(k)]
+        if k:
+            v[rng.randrange(k)] = float("nan")                      # a NaN somewhere
+    else:
+        v = [val() for _ in range(k)]
+    if t == "intlist":
+        v = [float(rng.choice([0, 0, 1, -3, 10 ** 6])) for _ in range(k)]
+    if t == "list":
+        return [jv(x) for x in v]
+    return {"t": t, "v": [jv(x) for x in v]}
 
 
 def gen_slot(rng, subject, ts, trained0, n, p_train_ok):
@@ -118,9 +254,11 @@ def gen_plain(rng):
     p_train_ok = rng.choice([1.0, 1.0, 0.7, 0.3])
     dim = rng.choice([1, 1, 2, 3])
     m = rng.choice([1, 1, 2])
-    return {"stream": "plain", "has_hook": rng.random() < 0.8, "via_job": ts != 0 and rng.random() < 0.4, "cur": 0,
-            "slots": [gen_slot(rng, subject, ts, rng.random() < 0.2, n, p_train_ok)],
-            "warmup": [], "events": gen_requests(rng, n, dim, m, p_accept)}
+    p_exotic = rng.choice([0.0, 0.0, 0.3, 0.7])
+    events = gen_requests(rng, n, dim, m, p_accept, p_exotic)
+    return {"stream": "plain", "has_hook": rng.random() < 0.8, "via_job": ts != 0 and rng.random() < 0.4 and all(answer_iterable(e[2]) for e in events),
+            "cur": 0, "slots": [gen_slot(rng, subject, ts, rng.random() < (0.2 if p_exotic == 0.0 else 0.6), n, p_train_ok)],
+            "warmup": [], "events": events}
 
 
 def gen_seed(rng, dim, m, previous):
@@ -144,6 +282,7 @@ def gen_session(rng):
     m = rng.choice([1, 1, 2])
     p_accept = rng.choice([0.0, 0.0, 0.3, 0.5, 0.8])
     p_train_ok = rng.choice([1.0, 1.0, 0.7, 0.3])
+    p_exotic = rng.choice([0.0, 0.0, 0.3, 0.7])
     subjects = [rng.choice(["scikit", "scikit", "scripted", "scripted", "eval"]) for _ in range(n_slots)]
     if all(x == "eval" for x in subjects):
         subjects[-1] = "scikit"
@@ -155,11 +294,11 @@ def gen_session(rng):
         if subjects[c] == "eval":
             c = rng.choice(pred)
             if c != cur and rng.random() < 0.7:
-                events += gen_requests(rng, rng.randint(0, 4), dim, m, p_accept)
+                events += gen_requests(rng, rng.randint(0, 4), dim, m, p_accept, p_exotic)
             events.append(["use", c])
         last_seed = gen_seed(rng, dim, m, [])
         events.append(["seed", last_seed])
-    reqs = gen_requests(rng, n, dim, m, p_accept)
+    reqs = gen_requests(rng, n, dim, m, p_accept, p_exotic)
     for r in reqs:
         while rng.random() < 0.22:
             u = rng.random()
@@ -178,7 +317,7 @@ def gen_session(rng):
         events.append(r)
     cut = rng.randint(1, max(1, len(events) // 2)) if rng.random() < 0.4 else 0
     has_zero = any(sl["train_step"] == 0 for sl in slots) or any(e[0] == "set_step" and e[1] == 0 for e in events)
-    return {"stream": "session", "has_hook": rng.random() < 0.85, "via_job": (not has_zero) and rng.random() < 0.3, "cur": cur,
+    return {"stream": "session", "has_hook": rng.random() < 0.85, "via_job": (not has_zero) and rng.random() < 0.3 and all(answer_iterable(e[2]) for e in events if e[0] == "req"), "cur": cur,
             "slots": slots, "warmup": events[:cut], "events": events[cut:]}
 
 
@@ -192,7 +331,7 @@ def run(ctx):
     class Rec:
         """What the scripted collaborators see when called through one wrapper object, in call order."""
         def __init__(self):
-            self.obj, self.hook, self.train, self.fit, self.score, self.tape = [], [], [], [], [], []
+            self.obj, self.hook, self.train, self.fit, self.score, self.tape, self.answers = [], [], [], [], [], [], []
 
     class BaseProblem(Problem):
         def set(self, **kwargs):
@@ -212,8 +351,9 @@ def run(ctx):
         def predict(self, individual):
             s = self.surrogate
             s.rec.hook.append((list(individual.vector), s.eval_counter, s.predict_counter))
-            h = self.current[2]
-            return None if h is None else list(h)
+            h = build_answer(self.current[2])
+            s.rec.answers.append(h)
+            return h
 
     class StubRegressor:
         def __init__(self, sur, scores):
@@ -306,7 +446,7 @@ def run(ctx):
         case_flag = {"hit": False}
 
         def state_of(w):
-            return (bool(w.trained), w.eval_counter, w.predict_counter, list(w.x_data), list(w.y_data),
+            return (bool(w.trained), w.eval_counter, w.predict_counter, list(w.x_data), [vkey(y) for y in w.y_data],
                     len(w.rec.obj), len(w.rec.hook), len(w.rec.train), len(w.rec.fit))
 
         def run_events(seg, events):
@@ -376,11 +516,11 @@ def run(ctx):
                     if subject != "eval" and n_train != (1 if kind == "train" else 0):
                         fail("%s called train() %d times" % (kind, n_train), case, pos, clause="retrain schedule non-request", **kw)
                     if kind == "seed":
-                        if sur.x_data[:len(x_b)] != x_b or sur.y_data[:len(y_b)] != y_b or len(sur.x_data) != len(sur.y_data):
+                        if sur.x_data[:len(x_b)] != x_b or ykeys(sur.y_data[:len(y_b)]) != y_b or len(sur.x_data) != len(sur.y_data):
                             fail("read_from_data_store() disturbed the existing training pairs", case, pos, clause="training data order", **kw)
                         a["want_x"] += sur.x_data[len(x_b):]        # what is seeded is judged by the correspondence, not here
-                        a["want_y"] += sur.y_data[len(y_b):]
-                    elif sur.x_data != x_b or sur.y_data != y_b:
+                        a["want_y"] += ykeys(sur.y_data[len(y_b):])
+                    elif sur.x_data != x_b or ykeys(sur.y_data) != y_b:
                         fail("%s changed the training set" % kind, case, pos, clause="training data non-request", **kw)
                     if kind == "train" and subject != "eval":
                         a["ec_last_train"] = ec
@@ -390,11 +530,11 @@ def run(ctx):
                 if subject == "eval":
                     if n_obj != 1 or rec.obj[-1][0] != vec:
                         fail("pass-through: objective called %d times for one request" % n_obj, case, pos, clause="passthrough objective calls", **kw)
-                    if exc is None and ret != true:
+                    if exc is None and vkey(ret) != vkey(true):
                         fail("pass-through: returned %r, true objective value %r" % (ret, true), case, pos, clause="passthrough value", **kw)
                     if ec != ec_b + 1 or pc != pc_b:
                         fail("pass-through: eval_counter %d->%d predict_counter %d->%d" % (ec_b, ec, pc_b, pc), case, pos, clause="passthrough counter", **kw)
-                    if sur.x_data != x_b or sur.y_data != y_b:
+                    if sur.x_data != x_b or ykeys(sur.y_data) != y_b:
                         fail("pass-through: training set changed", case, pos, clause="passthrough data", **kw)
                     continue
                 if n_obj == 0:
@@ -403,24 +543,25 @@ def run(ctx):
                         fail("prediction used while the model is not trained (returned %r)" % (ret,), case, pos, clause="prediction while untrained", **kw)
                     elif not case["has_hook"] or hook is None:
                         fail("objective not evaluated although the hook gave no value (returned %r)" % (ret,), case, pos, clause="no value and no evaluation", **kw)
-                    elif exc is None and ret != hook:
-                        fail("prediction returned %r, hook answered %r" % (ret, hook), case, pos, clause="prediction value", **kw)
+                    elif exc is None and (len(rec.answers) != len(rec.hook) or not rec.answers or vkey(ret) != vkey(rec.answers[-1])):
+                        fail("prediction returned %r, hook answered %r" % (ret, rec.answers[-1] if rec.answers else None), case, pos,
+                             clause="prediction value", **kw)
                     if pc != pc_b + 1 or ec != ec_b:
                         fail("prediction not counted as a prediction: eval %d->%d predict %d->%d" % (ec_b, ec, pc_b, pc), case, pos, clause="prediction counter", **kw)
-                    if sur.x_data != x_b or sur.y_data != y_b:
+                    if sur.x_data != x_b or ykeys(sur.y_data) != y_b:
                         fail("training data changed by a prediction", case, pos, clause="prediction touches data", **kw)
                     if n_train != 0:
                         fail("train() called by a predicted request", case, pos, clause="train on prediction", **kw)
                 else:
                     a["want_x"].append(vec)
-                    a["want_y"].append(true)
+                    a["want_y"].append(vkey(true))
                     if n_obj != 1 or rec.obj[-1][0] != vec:
                         fail("true objective evaluated %d times for one request" % n_obj, case, pos, clause="objective calls", **kw)
-                    if exc is None and ret != true:
+                    if exc is None and vkey(ret) != vkey(true):
                         fail("true evaluation returned %r, objective value %r" % (ret, true), case, pos, clause="value changed", **kw)
                     if ec != ec_b + 1 or pc != pc_b:
                         fail("true evaluation not counted exactly once: eval %d->%d predict %d->%d" % (ec_b, ec, pc_b, pc), case, pos, clause="evaluation counter", **kw)
-                    if sur.x_data != x_b + [vec] or sur.y_data != y_b + [true]:
+                    if sur.x_data != x_b + [vec] or ykeys(sur.y_data) != y_b + [vkey(true)]:
                         fail("(vector, value) not appended exactly once at the end: |x| %d->%d |y| %d->%d" % (len(x_b), len(sur.x_data), len(y_b), len(sur.y_data)),
                              case, pos, clause="training data append", **kw)
                     elif rec.obj[-1][1] != len(x_b):
@@ -434,7 +575,7 @@ def run(ctx):
                                  % (n_train, ec, len(sur.x_data), ts, 1 if due else 0), case, pos, clause="retrain schedule", **kw)
                         elif due and subject == "scikit":
                             nfit = len(rec.fit) - nf_b
-                            if nfit != 1 or rec.fit[-1][1] != sur.x_data or rec.fit[-1][2] != sur.y_data:
+                            if nfit != 1 or rec.fit[-1][1] != sur.x_data or ykeys(rec.fit[-1][2]) != ykeys(sur.y_data):
                                 fail("train() did not fit the regressor once on the current training set", case, pos, clause="fit data", **kw)
                     if ts not in (-1, 0):
                         # statistics: would a look-alike quantity have decided differently?
@@ -467,7 +608,7 @@ def run(ctx):
         run_events("main", case["events"])
         for j, (w, a) in enumerate(zip(wrappers, acct)):
             kw = {"subject": w.c19_subject, "train_step": getattr(w, "train_step", None)}
-            if w.x_data != a["want_x"] or w.y_data != a["want_y"]:
+            if w.x_data != a["want_x"] or ykeys(w.y_data) != a["want_y"]:
                 fail("training set of wrapper %d is not the sequence of seeded and truly evaluated (vector, value) pairs" % j, case, ("main", None),
                      clause="training set order", **kw)
             if w.eval_counter + w.predict_counter != a["requests"]:
@@ -483,7 +624,7 @@ def run(ctx):
     def enc_event(ev):
         k = ev[0]
         if k == "req":
-            return "ereq %s" % pl(enc_vec(ev[1]), optl(ev[2], enc_vec), enc_vec(ev[3]))
+            return "ereq %s" % pl(enc_vec(ev[1]), optl(ev[2], lambda h: enc_vec(build_answer(h))), enc_vec(ev[3]))
         if k == "seed":
             return "ESeed %s" % ll(ev[1], lambda i: pl(enc_vec(i[0]), enc_vec(i[1])))
         if k == "train":
@@ -516,7 +657,8 @@ def run(ctx):
             "raised": 0, "via_job": 0, "untrained_after_train": 0, "no_hook_problem": 0,
             "cases_with_warmup": 0, "model_starts_with_len_x_data_ne_eval_counter": 0, "model_starts_with_advanced_counters": 0,
             "model_starts_trained": 0, "seeded_individuals": {"EVALUATED": 0, "EMPTY": 0, "IN_PROGRESS": 0, "FAILED": 0},
-            "seed_calls_repeating_individuals": 0}
+            "seed_calls_repeating_individuals": 0, "hook_answers": {},
+            "hook_answers_with": {"nan": 0, "infinity": 0, "all zero or empty (falsy)": 0, "|value| >= 1e300": 0}}
 
     def add(case):
         obs = implementation(case)
@@ -528,7 +670,7 @@ def run(ctx):
                     {"wrappers": [{k: sl[k] for k in ("subject", "train_step", "trained0")} for sl in case["slots"]],
                      "model_start": [{k: sn[k] for k in ("trained", "eval_counter", "predict_counter", "train_step")} | {"len_x_data": len(sn["x_data"])}
                                      for sn in obs["snapshot"]],
-                     "observed": {"returned": obs["returned"], "wrappers": [{k: f[k] for k in ("eval_counter", "predict_counter", "train_log", "tape")} for f in fin]}})
+                     "observed": {"returned": [jdesc(r) for r in obs["returned"]], "wrappers": [{k: f[k] for k in ("eval_counter", "predict_counter", "train_log", "tape")} for f in fin]}})
         n = len(case["events"])
         hist["stream"][case["stream"]] = hist["stream"].get(case["stream"], 0) + 1
         hist["wrappers_per_case"][str(len(fin))] = hist["wrappers_per_case"].get(str(len(fin)), 0) + 1
@@ -544,6 +686,16 @@ def run(ctx):
                 hist["seed_calls_repeating_individuals"] += bool(prev) and ev[1][:len(prev)] == prev
                 prev = ev[1]
         hist["length"]["1-5" if n <= 5 else "6-20" if n <= 20 else "21-40" if n <= 40 else "41-60" if n <= 60 else "61+"] += 1
+        for ev in case["warmup"] + case["events"]:
+            if ev[0] == "req" and ev[2] is not None:
+                h = ev[2]
+                kind = "list" if isinstance(h, list) else h["t"]
+                vals = h if isinstance(h, list) else h["v"]
+                hist["hook_answers"][kind] = hist["hook_answers"].get(kind, 0) + 1
+                hist["hook_answers_with"]["nan"] += "nan" in vals
+                hist["hook_answers_with"]["infinity"] += "inf" in vals or "-inf" in vals
+                hist["hook_answers_with"]["all zero or empty (falsy)"] += all(x == 0 for x in vals)
+                hist["hook_answers_with"]["|value| >= 1e300"] += any(not isinstance(x, str) and abs(x) >= 1e300 for x in vals)
         hist["requests"] += len(obs["returned"])
         hist["predicted"] += sum(f["predict_counter"] - sn["predict_counter"] for f, sn in zip(fin, obs["snapshot"]))
         hist["evaluated"] += sum(f["eval_counter"] - sn["eval_counter"] for f, sn in zip(fin, obs["snapshot"]))
@@ -625,6 +777,36 @@ def run(ctx):
               events=[R(1, 7, 1), R(2, None, 2), ["use", 0], R(3, None, 3), R(4, None, 4), R(5, 7, 5), ["use", 1], R(6, None, 6), ["use", 2],
                       R(7, 7, 7), ["use", 0], R(8, None, 8), R(9, None, 9)]),
     ]
+    # hook answers of every shape the wrapper accepts (it only tests `is not None`), one per request on a trained wrapper,
+    # with declines in between: finite / falsy / NaN / infinite / huge values in lists, tuples, Python and numpy scalars,
+    # 0-d, 1-d, (1, n) and (n, 1) numpy arrays, lists of numpy scalars and of ints  (red team round 2)
+    nan_, inf_ = "nan", "inf"
+    ANSWERS = [[0.0], [-0.0], [], [0.0, 0.0], [nan_], [1.5, nan_], [nan_, nan_], [inf_], ["-inf"], [inf_, "-inf"], [1e308], [-1.7976931348623157e308, 5e-324],
+               [1000.5], [2.0 ** 53, 1e-300]]
+    for t_, vs in [("scalar", [[0.0], [-0.0], [nan_], [inf_], ["-inf"], [1e308], [1000.5]]),
+                   ("npscalar", [[0.0], [nan_], [inf_], ["-inf"], [1e308], [1000.5]]),
+                   ("np0", [[0.0], [nan_], ["-inf"], [1e308], [1000.5]]),
+                   ("np1", [[], [0.0], [-0.0], [0.0, 0.0], [nan_], [1.5, nan_], [inf_, 2.0], ["-inf"], [1e308, -1e308], [1000.5, 7.0], [1000.5]]),
+                   ("np2", [[0.0], [nan_], [nan_, 2.0], [inf_], [1000.5], [1000.5, 3.0], []]),
+                   ("npcol", [[0.0], [nan_], [2.0, nan_], ["-inf"], [1000.5, 3.0]]),
+                   ("tuple", [[], [0.0], [nan_], [1.5, inf_], [1000.5]]),
+                   ("listnp", [[0.0], [nan_], [inf_, 1.0], [1000.5, 2.0]]),
+                   ("intlist", [[0.0], [0.0, 0.0], [7.0], [1000000.0, -3.0]])]:
+        ANSWERS += [{"t": t_, "v": v} for v in vs]
+    A = lambda v, h, t: ["req", [float(v)], h, [float(t)]]
+    for subject, ts, via in (("scripted", -1, False), ("scikit", 2, False), ("scikit", 3, True), ("scripted", 1, True)):
+        answers = [h for h in ANSWERS if answer_iterable(h)] if via else ANSWERS
+        for k0 in range(0, len(answers), 12):
+            evs = []
+            for j, h in enumerate(answers[k0:k0 + 12]):
+                evs.append(A(j, h, 100 + j))
+                if j % 3 == 2:
+                    evs.append(A(j + 0.5, None, 200 + j))
+            corpus.append(plain(subject, ts, evs, trained0=True, via_job=via))
+    # the same answers while the model is NOT trained (the hook is not asked) and on a problem without a hook
+    corpus.append(plain("scikit", -1, [A(j, h, 100 + j) for j, h in enumerate(ANSWERS[:20])], trained0=False))
+    corpus.append(plain("scikit", 4, [A(j, h, 100 + j) for j, h in enumerate(ANSWERS[14:40])], trained0=True, has_hook=False))
+    corpus.append(plain("eval", 1, [A(j, h, 100 + j) for j, h in enumerate(ANSWERS[30:50])]))
     for case in corpus:
         add(case)
     for k in range(n_plain):
@@ -634,7 +816,10 @@ def run(ctx):
 
     ctx.coq_compare("c19", HEADER, "c19_case", "c19_obs", "c19_run", "c19_obs_eqb", cases, expected, meta, shard=ctx.pick(50, 200))
     ctx.rule = ("two streams plus a corpus. plain: request sequences of length 1..60 on one fresh wrapper (three subjects, train_step from %r, "
-                "hook present/absent, accept probability 0/0.3/0.5/0.8/1, trained or untrained start, train() leaving trained True or False, "
+                "hook present/absent, accept probability 0/0.3/0.5/0.8/1, hook answers as lists of floats and - in half of the cases, 30%% or 70%% of the "
+                "answers - as Python / numpy scalars, tuples, 0-d / 1-d / (1,n) / (n,1) numpy arrays, lists of numpy scalars or ints, with zeros / "
+                "empty (falsy), NaN, infinities and huge values inside (the returned object is compared by type, shape and bit pattern), "
+                "trained or untrained start, train() leaving trained True or False, "
                 "~40%% through Job.evaluate). session: 4..40 requests on 1..3 wrapper objects interleaved with read_from_data_store() "
                 "(0..9 individuals in all four states, sometimes the same individuals again), user train() calls, assignments of train_step "
                 "(from %r), trained and problem.surrogate; in ~40%% of the sessions a prefix is a warm-up run on the real objects only and the "
